@@ -71,6 +71,7 @@ func cmdVC(args []string) {
 	only := fs.String("only", "", "only obligations whose name contains this")
 	all := fs.Bool("all", false, "all functions under contract")
 	verbose := fs.Bool("v", false, "print every probed atom of counterexamples")
+	covers := fs.Bool("covers", false, "instead of proving, report obligations whose path condition is unsatisfiable")
 	fs.Parse(args)
 	E, err := newEngine()
 	if err != nil {
@@ -105,12 +106,27 @@ func cmdVC(args []string) {
 				obls = append(obls, o)
 			}
 		}
+		if *covers {
+			var cs []*Obl
+			for _, o := range obls {
+				cs = append(cs, &Obl{Name: o.Name + "#cover", Kind: "cover", Func: o.Func, PC: o.PC, Cond: "false", NDecls: o.NDecls, enc: o.enc, Pos: o.Pos})
+			}
+			obls = cs
+		}
 		sub := dir + "/" + mangle(k)
 		os.MkdirAll(sub, 0o755)
 		res := dischargeAll(obls, sub, time.Duration(*tmo)*time.Second, false, 14)
 		ok := 0
 		for _, o := range obls {
 			r := res[o]
+			if *covers {
+				if r.Status != "sat" {
+					fmt.Printf("  VACUOUS? %-8s %s %s\n", r.Status, o.Name, o.Pos)
+				} else {
+					ok++
+				}
+				continue
+			}
 			if r.Status == "unsat" {
 				ok++
 				continue
